@@ -44,5 +44,34 @@ macro_rules! harness_list {
         $m!(c18_frame_n7_k1, 18, scen::c18_frame::<8, 1>);
         $m!(c18_frame_n7_k2, 18, scen::c18_frame::<8, 2>);
         $m!(c18_frame_n7_k3, 18, scen::c18_frame::<8, 3>);
+        // ---- thorough tier (chain <= 8 and wider variants)
+        $m!(c01_step_n8_k0, 18, scen::c01_step::<9, 0>);
+        $m!(c01_step_n8_k1, 18, scen::c01_step::<9, 1>);
+        $m!(c01_step_n8_k2, 18, scen::c01_step::<9, 2>);
+        $m!(c01_step_n8_k3, 18, scen::c01_step::<9, 3>);
+        $m!(c01_walk_n6, 18, scen::c01_walk::<7, 4>);
+        $m!(c01_hist_k3, 18, scen::c01_hist::<4, 3>);
+        $m!(c02_cas_n8, 18, scen::c02_cas::<9>);
+        $m!(c03_one_txn_n8, 18, scen::c03_one_txn::<9, 4>);
+        $m!(c03_pairs_n2_gc_av, 18, scen::c03_pairs::<4, 1, 0>);
+        $m!(c03_pairs_n2_gs_as, 18, scen::c03_pairs::<4, 3, 2>);
+        $m!(c03_race3_replace, 18, scen_race::c03_race3_replace);
+        $m!(c04_atomic_ack_n8_k0, 18, scen::c04_atomic_ack::<9, 0>);
+        $m!(c04_atomic_ack_n8_k2, 18, scen::c04_atomic_ack::<9, 2>);
+        $m!(c05_fault_n5_k0, 18, scen::c05_fault::<6, 0>);
+        $m!(c05_fault_n5_k1, 18, scen::c05_fault::<6, 1>);
+        $m!(c05_fault_n5_k2, 18, scen::c05_fault::<6, 2>);
+        $m!(c05_fault_n5_k3, 18, scen::c05_fault::<6, 3>);
+        $m!(c07_frame_n8_k0, 18, scen::c07_frame::<9, 0>);
+        $m!(c07_frame_n8_k2, 18, scen::c07_frame::<9, 2>);
+        $m!(c08_table_n8, 18, scen::c08_table::<9>);
+        $m!(c10_none_n8, 18, scen::c10_none_9);
+        $m!(c10_prev_n8, 18, scen::c10_prev_9);
+        $m!(c11_none_n8, 18, scen::c11_none_9);
+        $m!(c11_prev_n8, 18, scen::c11_prev_9);
+        $m!(c18_frame_n8_k0, 18, scen::c18_frame::<9, 0>);
+        $m!(c18_frame_n8_k1, 18, scen::c18_frame::<9, 1>);
+        $m!(c18_frame_n8_k2, 18, scen::c18_frame::<9, 2>);
+        $m!(c18_frame_n8_k3, 18, scen::c18_frame::<9, 3>);
     };
 }
